@@ -5,6 +5,7 @@ import (
 	"github.com/hneemann/parser2/funcGen"
 	"github.com/hneemann/parser2/value"
 	"github.com/hneemann/parser2/value/export/xmlWriter"
+	"strings"
 )
 
 type xmlListExporter struct {
@@ -43,7 +44,7 @@ func (x xmlMapExporter) Open() error {
 
 func (x xmlMapExporter) Add(key string, val value.Value) error {
 	st := funcGen.NewEmptyStack[value.Value]()
-	if x.isSimple {
+	if x.isSimple && isXMLName(key) {
 		str, err := val.ToString(st)
 		if err != nil {
 			return err
@@ -89,6 +90,10 @@ func (x xmlExporter) Map(m value.Map) MapExporter {
 func isSimpleMap(m value.Map) bool {
 	isSimple := true
 	m.Iter(func(key string, e value.Value) bool {
+		if !isXMLName(key) {
+			// the key can not be used as the name of an attribute
+			isSimple = false
+		}
 		if _, ok := e.ToMap(); ok {
 			isSimple = false
 		}
@@ -101,6 +106,34 @@ func isSimpleMap(m value.Map) bool {
 		return true
 	})
 	return isSimple
+}
+
+// isXMLName returns true if the given string can be used as the name of an
+// xml attribute. Names containing a colon and the reserved names starting
+// with xml are not accepted.
+func isXMLName(s string) bool {
+	if s == "" || strings.HasPrefix(strings.ToLower(s), "xml") {
+		return false
+	}
+	for i, r := range s {
+		if !(isXMLNameStart(r) || (i > 0 && isXMLNameFollow(r))) {
+			return false
+		}
+	}
+	return true
+}
+
+func isXMLNameStart(r rune) bool {
+	return r >= 'a' && r <= 'z' || r >= 'A' && r <= 'Z' || r == '_' ||
+		r >= 0xC0 && r <= 0xD6 || r >= 0xD8 && r <= 0xF6 || r >= 0xF8 && r <= 0x2FF ||
+		r >= 0x370 && r <= 0x37D || r >= 0x37F && r <= 0x1FFF || r >= 0x200C && r <= 0x200D ||
+		r >= 0x2070 && r <= 0x218F || r >= 0x2C00 && r <= 0x2FEF || r >= 0x3001 && r <= 0xD7FF ||
+		r >= 0xF900 && r <= 0xFDCF || r >= 0xFDF0 && r <= 0xFFFC || r >= 0x10000 && r <= 0xEFFFF
+}
+
+func isXMLNameFollow(r rune) bool {
+	return r >= '0' && r <= '9' || r == '-' || r == '.' || r == 0xB7 ||
+		r >= 0x300 && r <= 0x36F || r >= 0x203F && r <= 0x2040
 }
 
 func (x xmlExporter) Custom(value.Value) (bool, error) {
